@@ -1069,7 +1069,7 @@ impl BufferParser for Parser {
                                 ).into());
                             }
                             if let Some(number) = self.parsed_numbers.first() {
-                                for _ in 0..*number {
+                                for _ in 0..min(*number, buf.terminal_state.get_height()) {
                                     buf.insert_terminal_line(current_layer,caret.pos.y);
                                 }
                             } else {
